@@ -274,6 +274,19 @@ def rule_codec(ck):
             elif v is not None:
                 okv = produced.get(id(v)) == kind
             ck.ob(rid, pm, r, okv, "%s carries the unescaped %s() of the match (or is empty)" % (key, kind), construct="%s from %s" % (key, kind))
+    # named patterns deliver keyword arguments, positional patterns positional ones
+    named = branch_flag(pm.cfg, "self.regex.groupindex", True, [])
+    unnamed = branch_flag(pm.cfg, "self.regex.groupindex", False, [])
+    for x in comps:
+        kind = produced.get(id(x))
+        if kind is None:
+            continue
+        nodes = [n for n in pm.cfg.stmt_nodes(lambda n: n.kind == "stmt") if any(x is y for y in ast.walk(n.ast))]
+        for n in nodes:
+            if kind == "groupdict":
+                ck.ob(rid, pm, n.ast, named.get(n.id, False), "keyword arguments are built (from groupdict) exactly for patterns with named groups")
+            else:
+                ck.ob(rid, pm, n.ast, unnamed.get(n.id, False), "positional arguments are built (from groups) exactly for patterns without named groups")
     rv = ck.func(R, "PathMatches.reverse")
     esc = [c for c in q.calls(rv.node) if q.is_call(c, "url_escape")]
     ck.floor(rid, len(esc), 1, "url_escape in reverse")
@@ -282,6 +295,21 @@ def rule_codec(ck):
         ck.ob(rid, rv, c, plus is not None and q.is_const(plus, False), "reverse() escapes arguments in path mode (plus=False), the inverse of what match() undoes")
         a0 = c.args[0] if c.args else None
         ck.ob(rid, rv, c, isinstance(a0, ast.Call) and q.call_attr(a0) == "utf8", "arguments are UTF-8 encoded before escaping")
+    # non-string arguments (numbers) are stringified before encoding
+    for c in esc:
+        a0 = c.args[0] if c.args else None
+        inner = a0.args[0] if isinstance(a0, ast.Call) and a0.args else None
+        if isinstance(inner, ast.Name):
+            conv = [n for n in rv.cfg.stmt_nodes(lambda n: n.kind == "stmt" and isinstance(n.ast, ast.Assign) and inner.id in q.assigned_paths(n.ast) and q.is_call(n.ast.value, "str") and q.dotted(n.ast.value.args[0]) == inner.id)]
+            okc = False
+            for n in conv:
+                for t in rv.cfg.stmt_nodes(lambda t: t.kind == "test"):
+                    if q.is_call(t.ast, "isinstance") and q.dotted(t.ast.args[0]) == inner.id and branch_flag(rv.cfg, q.unparse(t.ast), False, []).get(n.id, False):
+                        okc = True
+            inline = False
+        else:
+            okc = any(q.is_call(x, "str") for x in ast.walk(a0)) if a0 is not None else False
+        ck.ob(rid, rv, c, okc, "arguments that are neither str nor bytes are converted with str() before they are encoded")
     # every argument is converted and all of them are substituted
     loops = [n for n in own_nodes(rv.node) if isinstance(n, ast.For)]
     args_p = rv.node.args.vararg.arg if rv.node.args.vararg else None
@@ -446,6 +474,31 @@ def rule_unescape(ck):
             ck.ob(rid, fg, n.ast, bf.get(n.id, False), "reverse pieces are built only when every '(' of the pattern opens a capturing group")
         split_src = [c for c in ast.walk(fg.node) if isinstance(c, ast.Call) and isinstance(c.func, ast.Attribute) and c.func.attr == "split" and c.args and q.is_const(c.args[0], "(")]
         ck.ob(rid, fg, split_src[0] if split_src else fg.node, len(split_src) == 1 and q.dotted(split_src[0].func.value) == guard[2], "the text that is split on '(' is the text whose '(' were counted")
+    # exactly the anchors are stripped, exactly the text after the closing parenthesis is kept
+    for t in cfg.stmt_nodes(lambda t: t.kind == "test"):
+        e = t.ast
+        if isinstance(e, ast.Call) and isinstance(e.func, ast.Attribute) and e.func.attr in ("startswith", "endswith") and len(e.args) == 1 and isinstance(e.args[0], ast.Constant) and isinstance(e.args[0].value, str) and isinstance(e.func.value, ast.Name):
+            var, lit = e.func.value.id, e.args[0].value
+            bf = branch_flag(cfg, q.unparse(e), True, [var])
+            for n in cfg.stmt_nodes(lambda n: n.kind == "stmt" and isinstance(n.ast, ast.Assign) and var in q.assigned_paths(n.ast) and isinstance(n.ast.value, ast.Subscript) and q.dotted(n.ast.value.value) == var and isinstance(n.ast.value.slice, ast.Slice)):
+                if not bf.get(n.id, False):
+                    continue
+                sl = n.ast.value.slice
+                try:
+                    lo = q.fold(sl.lower, {}) if sl.lower is not None else None
+                    hi = q.fold(sl.upper, {}) if sl.upper is not None else None
+                except q.NotFoldable:
+                    raise AnalysisError("_find_groups: anchor-stripping slice not understood: %s" % q.unparse(n.ast))
+                want = (len(lit), None) if e.func.attr == "startswith" else (None, -len(lit))
+                ck.ob(rid, fg, n.ast, (lo, hi) == want and sl.step is None, "exactly the %r anchor is removed from the pattern text (%d character)" % (lit, len(lit)))
+    for n in cfg.stmt_nodes(lambda n: n.kind == "stmt" and isinstance(n.ast, ast.Assign) and isinstance(n.ast.value, ast.Call) and isinstance(n.ast.value.func, ast.Attribute) and n.ast.value.func.attr in ("index", "find") and n.ast.value.args and q.is_const(n.ast.value.args[0], ")")):
+        loc = q.dotted(n.ast.targets[0])
+        frag = q.dotted(n.ast.value.func.value)
+        uses = [x for x in ast.walk(fg.node) if isinstance(x, ast.Subscript) and q.dotted(x.value) == frag and isinstance(x.slice, ast.Slice) and loc in q.names_in(x.slice)]
+        for x in uses:
+            lo = x.slice.lower
+            okp = isinstance(lo, ast.BinOp) and isinstance(lo.op, ast.Add) and q.dotted(lo.left) == loc and q.is_const(lo.right, 1) and x.slice.upper is None
+            ck.ob(rid, fg, x, okp, "the literal text kept after a group starts right after its closing parenthesis")
     ru = ck.func(U, "re_unescape")
     rr = ck.func(U, "_re_unescape_replacement")
     m = ck.repo.module(U)
@@ -664,6 +717,19 @@ def rule_reverse_lookup(ck):
     us = ck.func(R, "URLSpec.__init__")
     pmc = [c for c in q.calls(us.node) if q.is_call(c, "PathMatches")]
     ck.ob(rid, us, pmc[0] if pmc else us.node, len(pmc) == 1 and q.dotted(pmc[0].args[0]) == us.params()[1], "URLSpec matches its pattern with PathMatches")
+    ri_ = ck.func(R, "Rule.__init__")
+    rp_ = ri_.params()[1:]
+    sup = [c for c in q.calls(us.node) if isinstance(c.func, ast.Attribute) and c.func.attr == "__init__"]
+    mvar = [q.dotted(st.targets[0]) for st in own_nodes(us.node) if isinstance(st, ast.Assign) and st.value in pmc]
+    for c in sup:
+        b = {rp_[i]: a for i, a in enumerate(c.args) if i < len(rp_)}
+        b.update({k.arg: k.value for k in c.keywords})
+        up = us.params()
+        ok = bool(mvar) and q.dotted(b.get("matcher")) == mvar[0] and q.dotted(b.get("target")) == up[2] and q.dotted(b.get("target_kwargs")) == up[3] and q.dotted(b.get("name")) == up[4]
+        ck.ob(rid, us, c, ok, "URLSpec hands (matcher, handler, kwargs, name) to Rule under the matching parameter names")
+    for attr in ("matcher", "target", "name"):
+        st = q.stores_to(ri_.node, "self." + attr)
+        ck.ob(rid, ri_, st[-1] if st else ri_.node, bool(st) and q.dotted(st[-1].value) == attr, "Rule keeps its %s" % attr, construct="self.%s = %s" % (attr, attr))
     ar = ck.func(R, "RuleRouter.add_rules")
     pmc2 = [c for c in q.calls(ar.node) if q.is_call(c, "PathMatches")]
     ck.ob(rid, ar, pmc2[0] if pmc2 else ar.node, len(pmc2) == 1, "string patterns in rule tuples become PathMatches")
@@ -770,6 +836,8 @@ MUTANTS = [
     ("captured groups unescaped in query mode (plus=True)", _impl_edit(R, "_unquote_or_none", _set_kw("url_unescape", "plus", True)), "C31.codec"),
     ("reverse escapes in query mode (plus=True)", _in(R, "PathMatches.reverse", _set_kw("url_escape", "plus", True)), "C31.codec"),
     ("named groups delivered without unescaping", _in(R, "PathMatches.match", replace_expr(lambda n: isinstance(n, ast.DictComp), lambda n: parse_expr("{str(k): v for (k, v) in match.groupdict().items()}"))), "C31.codec"),
+    ("named-group test inverted: positional patterns deliver nothing", _in(R, "PathMatches.match", replace_expr(lambda n: isinstance(n, ast.Attribute) and _u(n) == "self.regex.groupindex", lambda n: parse_expr("not self.regex.groupindex"))), "C31.codec"),
+    ("numeric reverse() arguments are no longer stringified", _in(R, "PathMatches.reverse", remove_stmts(lambda st: isinstance(st, ast.If) and "isinstance" in _u(st.test))), "C31.codec"),
     ("optional groups crash: None passed to url_unescape", _impl_edit(R, "_unquote_or_none", remove_stmts(lambda st: isinstance(st, ast.If))), "C31.codec"),
     ("F21 repair undone after a group", _in(R, "PathMatches._find_groups", _unescape_pct(0)), "C31.format-hygiene"),
     ("F21 repair undone for the leading fragment", _in(R, "PathMatches._find_groups", _unescape_pct(1)), "C31.format-hygiene"),
@@ -777,6 +845,8 @@ MUTANTS = [
     ("escaped too early: '%' doubled before re_unescape only on one branch", _in(R, "PathMatches._find_groups", lambda fn: (_unescape_pct(1)(fn) and replace_stmt(lambda st: isinstance(st, ast.If) and "startswith('^')" in _u(st.test), lambda st: [st, parse_stmt("if pattern.endswith('/'):\n    pattern = pattern.replace('%', '%%')")])(fn))), "C31.format-hygiene"),
     ("unescapable fragment is not caught", _in(R, "PathMatches._find_groups", replace_stmt(lambda st: isinstance(st, ast.Try) and "re_unescape(fragment)" in _u(st), lambda st: st.body)), "C31.unescape"),
     ("patterns with non-capturing groups are 'reversed' anyway", _in(R, "PathMatches._find_groups", remove_stmts(lambda st: isinstance(st, ast.If) and "count" in _u(st.test))), "C31.unescape"),
+    ("'$' stripping removes two characters", _in(R, "PathMatches._find_groups", replace_expr(lambda n: isinstance(n, ast.Subscript) and _u(n) == "pattern[:-1]", lambda n: parse_expr("pattern[:-2]"))), "C31.unescape"),
+    ("closing parenthesis kept in the reverse text", _in(R, "PathMatches._find_groups", replace_expr(lambda n: isinstance(n, ast.BinOp) and _u(n) == "paren_loc + 1", lambda n: parse_expr("paren_loc"))), "C31.unescape"),
     ("re_unescape lets \\d through", _in(U, "_re_unescape_replacement", remove_stmts(lambda st: isinstance(st, ast.If))), "C31.unescape"),
     ("re_unescape keeps the backslash", _in(U, "_re_unescape_replacement", replace_stmt(lambda st: isinstance(st, ast.Return), lambda st: [parse_stmt("return match.group(0)")])), "C31.unescape"),
     ("digits not treated as class escapes", lambda repo: mutate(repo, U, None, lambda tree: replace_expr(lambda n: isinstance(n, ast.Constant) and isinstance(n.value, str) and n.value.startswith("abcdefghijklmnopqrstuvwxyzABC"), lambda n: ast.Constant(value="abcdefghijklmnopqrstuvwxyzABCDEFGHIJKLMNOPQRSTUVWXYZ"))(tree)), "C31.unescape"),
@@ -785,5 +855,6 @@ MUTANTS = [
     ("no route falls through to a 500-style handler", _in(W, "Application.find_handler", replace_expr(lambda n: q.is_const(n, 404), lambda n: ast.Constant(value=500))), "C31.fallback"),
     ("default handler used even when a route was found", _in(W, "Application.find_handler", replace_expr(lambda n: isinstance(n, ast.Compare) and _u(n) == "route is not None", lambda n: parse_expr("route is not None and not self.settings.get('default_handler_class')"))), "C31.fallback"),
     ("rule registered under a constant key", _in(R, "ReversibleRuleRouter.process_rule", replace_stmt(lambda st: isinstance(st, ast.Assign) and "self.named_rules[" in _u(st.targets[0]), lambda st: [parse_stmt("self.named_rules[str(rule.name).lower()] = rule")])), "C31.reverse-lookup"),
+    ("URLSpec passes its name as the handler kwargs", _in(R, "URLSpec.__init__", replace_expr(lambda n: isinstance(n, ast.Call) and "__init__" in _u(n.func), lambda n: parse_expr("super().__init__(matcher, handler, name, kwargs)"))), "C31.reverse-lookup"),
     ("unknown names reverse to None", _in(W, "Application.reverse_url", replace_stmt(lambda st: isinstance(st, ast.Raise), lambda st: [parse_stmt("return None")])), "C31.reverse-lookup"),
 ]
